@@ -681,3 +681,123 @@ Theorem dither565_depends_on_alignment :
   convert565 false 1 true 0 0 4 row buf [0] <> convert565 false 1 true 2 0 4 row buf [0] /\
   convert565 false 1 false 0 0 4 row buf [0] = convert565 false 1 false 2 0 4 row buf [0].
 Proof. cbv zeta. split; [vm_compute; discriminate | vm_compute; reflexivity]. Qed.
+
+(* ------------------------------------------------------------------ ordered dithering: the documented pattern (positive statement) *)
+(* pixel k of a row is dithered with the row's dither word rotated k times *)
+Fixpoint vals_from (src d : Z) (inp : list px3) : list Z :=
+  match inp with [] => [] | t :: r => pk false (px565 src true d t) :: vals_from src (dither_rot d) r end.
+
+Lemma iter_succ_r {A} (f : A -> A) : forall n x, Nat.iter (S n) f x = Nat.iter n f (f x).
+Proof.
+  induction n; intro x; [reflexivity|].
+  change (f (Nat.iter (S n) f x) = f (Nat.iter n f (f x))). now rewrite IHn.
+Qed.
+
+Lemma vals_from_app src : forall l1 l2 d,
+  vals_from src d (l1 ++ l2) = vals_from src d l1 ++ vals_from src (Nat.iter (length l1) dither_rot d) l2.
+Proof.
+  induction l1 as [|t r IH]; intros l2 d; [reflexivity|].
+  cbn [app vals_from length]. rewrite IH. rewrite iter_succ_r. reflexivity.
+Qed.
+Lemma vals_from_firstn src : forall k l d, firstn k (vals_from src d l) = vals_from src d (firstn k l).
+Proof. induction k; intros [|t r] d; cbn [firstn vals_from]; try reflexivity. now rewrite IHk. Qed.
+Lemma vals_from_length src : forall l d, length (vals_from src d l) = length l.
+Proof. induction l; intro d; cbn [vals_from length]; [reflexivity | now rewrite IHl]. Qed.
+
+Definition okD (src d : Z) (inp : list px3) : Prop := Forall (fun v => 0 <= v < 65536) (vals_from src d inp).
+
+Lemma pairs565D_spec src : forall n inp buf op d,
+  (2 * n <= length inp)%nat -> okD src d inp -> 0 <= op -> op + 4 * Z.of_nat n <= Z.of_nat (length buf) ->
+  let '(inp', buf', op', d') := pairs565 false src true n inp buf op d in
+  inp' = skipn (2 * n) inp /\ op' = op + 4 * Z.of_nat n /\ d' = Nat.iter (2 * n) dither_rot d /\ length buf' = length buf /\
+  (forall j, 0 <= j -> (j < op \/ op + 4 * Z.of_nat n <= j) -> rd buf' j = rd buf j) /\
+  cols565 false buf' op (2 * n) = firstn (2 * n) (vals_from src d inp).
+Proof.
+  induction n; intros inp buf op d Hlen Hok Hop Hb.
+  - cbn. repeat split; auto. lia.
+  - destruct inp as [|t1 [|t2 rest]]; cbn [length] in Hlen; try lia.
+    cbn [pairs565 hd tl]. unfold okD in Hok. cbn [vals_from] in Hok.
+    inversion Hok as [|? ? H1 Hok1]; subst. inversion Hok1 as [|? ? H2 Hok2]; subst.
+    set (v1 := pk false (px565 src true d t1)) in *. set (v2 := pk false (px565 src true (dither_rot d) t2)) in *.
+    set (buf1 := store32 false buf op (pack_two false v1 v2)).
+    assert (L1 : length buf1 = length buf) by apply length_store32.
+    specialize (IHn rest buf1 (op + 4) (dither_rot (dither_rot d))).
+    destruct (pairs565 false src true n rest buf1 (op + 4) (dither_rot (dither_rot d))) as [[[inp' buf'] op'] d'].
+    destruct IHn as (I1 & I2 & I3 & I4 & I5 & I6); [lia | exact Hok2 | lia | rewrite L1; lia |].
+    replace (2 * S n)%nat with (S (S (2 * n))) by lia.
+    cbn [skipn firstn vals_from cols565]. repeat split.
+    + exact I1.
+    + lia.
+    + rewrite I3. now rewrite !iter_succ_r.
+    + now rewrite I4.
+    + intros j Hj Ho. rewrite I5 by lia. apply store32_frame; lia.
+    + destruct (load16_store32 buf op v1 v2) as [E1 E2]; try assumption; try lia.
+      fold v1 v2. f_equal; [|f_equal].
+      * unfold load16. rewrite !I5 by lia. exact E1.
+      * unfold load16. rewrite !I5 by lia. exact E2.
+      * replace (op + 2 + 2) with (op + 4) by lia. exact I6.
+Qed.
+
+(* an aligned row, dithered: pixel k carries the dither word rotated k times (the documented ordered dither) *)
+Lemma row565D_aligned src base inp buf op d :
+  let w := Z.of_nat (length inp) in
+  Z.land (base + op) pack_align_mask = 0 -> okD src d inp -> 0 <= op -> op + 2 * w <= Z.of_nat (length buf) ->
+  let '(buf', _, _) := row565 false src true base inp buf op w d in
+  length buf' = length buf /\
+  (forall j, 0 <= j -> (j < op \/ op + 2 * w <= j) -> rd buf' j = rd buf j) /\
+  cols565 false buf' op (length inp) = vals_from src d inp.
+Proof.
+  cbv zeta. intros Ha Hok Hop Hb. unfold row565. rewrite Ha. cbn [Z.eqb negb].
+  set (n := Z.to_nat (Z.shiftr (Z.of_nat (length inp)) 1)).
+  assert (Hn : (2 * n <= length inp)%nat /\ Z.of_nat (length inp) = 2 * Z.of_nat n + (if Z.odd (Z.of_nat (length inp)) then 1 else 0)).
+  { unfold n. rewrite Z.shiftr_div_pow2 by lia. change (2 ^ 1) with 2.
+    pose proof (Zdiv2_odd_eqn (Z.of_nat (length inp))) as E. rewrite Z.div2_div in E.
+    rewrite Z2Nat.id by (apply Z.div_pos; lia). split; [|lia].
+    destruct (Z.odd (Z.of_nat (length inp))); lia. }
+  destruct Hn as [Hn1 Hn2].
+  pose proof (pairs565D_spec src n inp buf op d Hn1 Hok Hop) as P.
+  destruct (pairs565 false src true n inp buf op d) as [[[inp2 buf2] op2] d2].
+  destruct P as (P1 & P2 & P3 & P4 & P5 & P6); [destruct (Z.odd (Z.of_nat (length inp))); lia|].
+  destruct (Z.odd (Z.of_nat (length inp))) eqn:Eo.
+  - assert (Hr : length inp = (2 * n + 1)%nat) by lia.
+    pose proof (firstn_skipn (2 * n) inp) as FS.
+    destruct (skipn (2 * n) inp) as [|x [|y r]] eqn:Es.
+    + rewrite <- FS, app_nil_r, firstn_length in Hr. lia.
+    + subst inp2. cbn [hd].
+      assert (Hx : 0 <= pk false (px565 src true d2 x) < 65536).
+      { unfold okD in Hok. rewrite <- FS, vals_from_app in Hok. apply Forall_app in Hok. destruct Hok as [_ Hk].
+        cbn [vals_from] in Hk. inversion Hk as [|? ? Hv _]. rewrite firstn_length, Nat.min_l in Hv by lia. now rewrite P3. }
+      repeat split.
+      * rewrite length_store16. lia.
+      * intros j Hj Ho. rewrite store16_frame by lia. apply P5; lia.
+      * rewrite Hr, cols565_app.
+        replace (vals_from src d inp) with (vals_from src d (firstn (2 * n) inp ++ [x])) by (now rewrite FS).
+        rewrite vals_from_app. f_equal.
+        -- rewrite <- vals_from_firstn, <- P6. apply cols565_ext. intros j Hj. apply store16_frame; lia.
+        -- rewrite firstn_length, Nat.min_l by lia. cbn [vals_from cols565]. f_equal.
+           replace (op + 2 * Z.of_nat (2 * n)) with op2 by lia. rewrite <- P3.
+           apply load16_store16; [lia | rewrite P4; lia | exact Hx].
+    + assert (length inp = length (firstn (2 * n) inp) + S (S (length r)))%nat by (rewrite <- FS at 1; rewrite app_length; reflexivity).
+      rewrite firstn_length in H. lia.
+  - assert (Hr : length inp = (2 * n)%nat) by lia.
+    repeat split.
+    + lia.
+    + intros j Hj Ho. apply P5; lia.
+    + rewrite Hr, P6. rewrite <- Hr. rewrite <- (vals_from_length src inp d) at 1. now rewrite firstn_all.
+Qed.
+
+(* one scanline per call into a row at 0 mod 4: the dithered row is the ordered dither of scanline `scan` *)
+Theorem dither565_one_aligned_row src base scan row buf op :
+  Z.land (base + op) pack_align_mask = 0 -> okD src (dither_row scan) row -> 0 <= op ->
+  op + 2 * Z.of_nat (length row) <= Z.of_nat (length buf) ->
+  let out := convert565 false src true base scan (Z.of_nat (length row)) [row] buf [op] in
+  length out = length buf /\
+  (forall j, 0 <= j -> (j < op \/ op + 2 * Z.of_nat (length row) <= j) -> rd out j = rd buf j) /\
+  cols565 false out op (length row) = vals_from src (dither_row scan) row.
+Proof.
+  intros Ha Hok Hop Hb. cbv zeta. unfold convert565. cbn [rows565].
+  replace (if rgb565_numcols_reset_per_row then Z.of_nat (length row) else Z.of_nat (length row)) with (Z.of_nat (length row))
+    by (destruct rgb565_numcols_reset_per_row; reflexivity).
+  pose proof (row565D_aligned src base row buf op (dither_row scan) Ha Hok Hop Hb) as R.
+  destruct (row565 false src true base row buf op (Z.of_nat (length row)) (dither_row scan)) as [[b' n'] d']. exact R.
+Qed.
